@@ -17,6 +17,29 @@ E2 = 'semz3'
 
 # id -> dict(engine, category, text, note, technique, design)
 CHECKS = {
+ 'C04': dict(
+    engine=E2, category='proof', design='6 C04',
+    text='Every non-closure rule class of every logic is run (the real rule object on a real branch) and '
+         'what it adds is compared by z3 with the node it expands, over all interpretations of the '
+         'specification semantics on |W|<=3, |D|<=3: sat(node) <=> exists new names. OR_i AND sat(adds_i). '
+         'A bounded proof per rule: the case analysis over values is complete, shapes of operands are listed. '
+         'Frame rules: all sets of access pairs over <=3 worlds as symbolic booleans under pysymex.',
+    note='Trusts z3, engine/semz3.py (Interp), spec/tables.py as oracle (FDE family: Belnap-Dunn lattice), '
+         'the real substitution used to instantiate quantifiers (property C15). MaxConsts limit lifted on '
+         'harness branches. Non-ticking rules compared at their fixpoint assuming every element/accessible '
+         'world is named on the branch.',
+    technique='SMT validity of rule exactness obligations generated from real rule output (z3); '
+              'proxy symbolic execution for frame rules'),
+ 'C05': dict(
+    engine=E2, category='proof', design='6 C05',
+    text='For every logic, literal-bearing sentence kind, subset of literal constraints, world split and '
+         'insertion order, the real branch is built and z3 decides satisfiability of the literal set in the '
+         'specification semantics: closed <=> unsat; the value read by the real model builder must be a '
+         'solution of the same query. The literal space is finite and covered completely.',
+    note='Trusts z3, engine/semz3.py, spec/tables.py. All insertion orders of a literal set share one real '
+         'tableau as separate root branches (one order is repeated in a tableau of its own); logics with a '
+         'serial rule use one tableau per order.',
+    technique='SMT satisfiability of literal sets (z3) against real closure rules and model builder'),
  'C07': dict(
     engine=E2, category='proof', design='6 C07',
     text='Finite and complete: every (logic, operator, value tuple) of the real truth functions is '
